@@ -381,9 +381,9 @@ def emfile_retry(prog, res, floor=2):
     def is_emfile_leaf(fn, n):
         n = fn.strip(n)
         nd = fn.nodes[n]
-        if nd["k"] == "bin" and nd["o"] == "==" and fn.const_val(nd["c"][1]) == EMFILE:
-            return "__errno_location" in fn.txt(nd["c"][0])
-        return False
+        if nd["k"] == "bin" and nd["o"] == "==" and isinstance(fn.const_val(nd["c"][1]), int) and "__errno_location" in fn.txt(nd["c"][0]):
+            return fn.const_val(nd["c"][1])
+        return None
 
     def ev(fn, n, env, assume):
         """value of expression n under env (var id -> int), side effects applied to env; None if unknown.
@@ -433,7 +433,9 @@ def emfile_retry(prog, res, floor=2):
             if len(b.succs) != 2 or not b.elems or b.succs[0] is None or b.succs[0] < 0 or b.term not in ("DoStmt", "WhileStmt", "ForStmt"):
                 continue
             T = b.elems[-1]
-            if not any(is_emfile_leaf(fn, x) for x in fn.subtree(T)):
+            codes = [is_emfile_leaf(fn, x) for x in fn.subtree(T)]
+            codes = [c for c in codes if c is not None]
+            if not codes:
                 continue
             # is the true edge a back edge (can this block be reached again from it)?
             seen, st = set(), [b.succs[0]]
@@ -446,6 +448,18 @@ def emfile_retry(prog, res, floor=2):
             if b.id not in seen:
                 continue
             loop = {x for x in seen if x == b.id or _reaches(fn, x, b.id)}
+            # the idiom is a retry loop that collects: an errno test in a loop that calls sexp_gc (EINTR loops do not)
+            if not any(nd2["k"] == "call" and nd2.get("o") == "sexp_gc" and any(i2 in fn.subtree(e) for x in loop for e in fn.blocks[x].elems[-1:])
+                       for i2, nd2 in enumerate(fn.nodes)) and EMFILE not in codes:
+                continue
+            if EMFILE not in codes:
+                stat.sites += 1
+                stat.obligations += 1
+                res.add(Finding("C16", "C16.g.retry-on-other-errno", fn.name, "errno == %d" % codes[0], fn.where(T),
+                                "%s collects and retries when errno == %d, not EMFILE (%d): a process that has used up its own "
+                                "descriptors (RLIMIT_NOFILE) gets EMFILE from open/fopen, so the descriptors of dropped ports are "
+                                "never released by this loop" % (fn.name, codes[0], EMFILE), unit=fn.unit.display))
+                continue
             stat.sites += 1
             stat.obligations += 2
             tnodes = set(fn.subtree(T))
